@@ -104,7 +104,18 @@ impl TrackerClient {
 
     fn create_url(metainfo: &Metainfo) -> String {
         let info_hash: String = form_urlencoded::byte_serialize(metainfo.info_hash()).collect();
-        metainfo.tracker_url().clone() + "?info_hash=" + info_hash.as_str()
+        let url = metainfo.tracker_url();
+
+        // Announce URL may already contain query string
+        let delimiter = match url.contains('?') {
+            true => match url.ends_with('?') || url.ends_with('&') {
+                true => "",
+                false => "&",
+            },
+            false => "?",
+        };
+
+        url.clone() + delimiter + "info_hash=" + info_hash.as_str()
     }
 }
 
